@@ -473,3 +473,7 @@ End Cipher.
 Lemma preencrypted_refused : liveMPDdrm true true = Err "pre-encrypted asset cannot be encrypted again" /\
   (forall drm, encryptsTrack drm false = false) /\ liveMPDdrm false true = Ok tt /\ liveMPDdrm true false = Ok tt.
 Proof. repeat split. intros []; reflexivity. Qed.
+
+(** * Load paths *)
+Lemma protection_independent_of_load_path enc : readInitPrepares enc true = readInitPrepares enc false /\ readInitPrepares true true = true.
+Proof. split; reflexivity. Qed.
